@@ -9,7 +9,7 @@ import sys
 ROOT = os.path.join(os.path.dirname(os.path.dirname(os.path.abspath(__file__))), "coq", "theories")
 
 
-STANDALONE = {"AckProofs", "LocksProofs", "LedgerProofs", "LedgerUpdProofs", "PoolProofs", "WindowProofs", "MicroProofs"}
+STANDALONE = {"AckProofs", "LocksProofs", "LedgerProofs", "LedgerUpdProofs", "PoolProofs", "WindowProofs", "MicroProofs", "MicroStats"}
 
 
 def statements(modname):
@@ -29,7 +29,7 @@ def emit(pid, title, imports, items, examples=""):
              ("From CacheD Require Import Base Ledger LedgerUpd." if "LedgerUpdProofs" in imports else
               "From CacheD Require Import Base Ledger." if "LedgerProofs" in imports else
               "From CacheD Require Import Base PoolProto." if "PoolProofs" in imports else
-              "From CacheD Require Import Base Sketch Model Window Micro.\nFrom CacheD.proofs Require Import Defs ApiProofs HistoryProofs." if "MicroProofs" in imports else
+              "From CacheD Require Import Base Sketch Model Window Micro.\nFrom CacheD.proofs Require Import Defs ApiProofs HistoryProofs StatsProofs." if "MicroProofs" in imports else
               "From CacheD Require Import Base Sketch Model Window.\nFrom CacheD.proofs Require Import Defs." if "WindowProofs" in imports else
               "From CacheD Require Import Base Locks.\nLocal Open Scope nat_scope." if "LocksProofs" in imports else
               "From CacheD Require Import Base Sketch Model%s." % (" Ack" if "AckProofs" in imports else "")),
@@ -103,6 +103,9 @@ spec("C07_micro", "put split at its schedule points: the race between two puts o
 ])
 spec("C08_micro", "put_or_update behind the flag check is Window.v's first half", [M], [
     (M, "mupsert_enter_is_half1", None),
+])
+spec("C15_micro", "Hit accounting with reads split between the store lookup and the access record", [M, "MicroStats"], [
+    ("MicroStats", "micro_hits_accounted_run", None), ("MicroStats", "read_in_flight_witness", None), (M, "mcall_atomic", None),
 ])
 spec("C02_micro", "Reads split at their schedule points", [M], [
     (M, "mcall_atomic", None), (M, "micro_soft_deleted_stays_hidden", "deleted_value_never_returned_micro"),
